@@ -113,9 +113,9 @@ def run (st : St K F E) : List (CKey K) → St K F E
   | [] => st
   | ck :: rest => run (lookup plan st ck).1 rest
 
-/-- `MultiTypeMap.register` w.r.t. the caches: `self.clear()` empties the dict only (typemap.py L209);
-    `errors` and `all` survive -/
-def cleared (st : St K F E) : St K F E := { st with cache := fun _ => none, cacheKeys := [] }
+/-- `MultiTypeMap.register` w.r.t. the caches: `self.clear()`, `self.errors.clear()`, `self.all.clear()`
+    (typemap.py L209-211; the last two since the `fix:` for finding D2) -/
+def cleared (_st : St K F E) : St K F E := St.empty
 
 end
 end Ovld
